@@ -1071,7 +1071,7 @@ int driver_main(const DriverOpts &o)
     std::set<std::string>    known_keys;
     std::vector<std::string> known_lines;
     std::vector<std::pair<Plan, Outcome>> changed_known;
-    unsigned                              regress_run = 0;
+    unsigned                              regress_run = 0, stale_known = 0;
     for (auto &k : known) {
         if (k.mask)
             known_keys.insert(k.key);
@@ -1108,6 +1108,13 @@ int driver_main(const DriverOpts &o)
                        out.v.key.c_str(), k.key.c_str());
                 changed_known.push_back({plan, out});
             }
+        }
+        else if (out.status == ST_OK) {
+            // the stored history does not fail any more: the finding was repaired (then it belongs under "fixed:"), or the
+            // workload changed under the replay and it has to be made anew -- either way somebody has to look
+            printf("note: stored replay %s of a listed finding (key=%s) does not fail any more: no KNOWN-FINDING line for it\n",
+                   k.replay.c_str(), k.key.c_str());
+            stale_known++;
         }
     }
 
